@@ -3448,3 +3448,96 @@ sf_get_chunk_data (const SF_CHUNK_ITERATOR * iterator, SF_CHUNK_INFO * chunk_inf
 
 	return SFE_BAD_CHUNK_FORMAT ;
 } /* sf_get_chunk_data */
+
+#ifdef LIBSNDFILE_VERIF
+/*------------------------------------------------------------------------------
+** Verification hook (only compiled with -DLIBSNDFILE_VERIF) : a read-only copy
+** of the scalar bookkeeping of a handle. It never changes any state (in
+** particular it does not clear psf->error the way the public entry points do).
+** The prototype and struct are declared by the verification harness.
+*/
+
+typedef struct
+{	long long	error, mode, last_op, have_written ;
+	long long	read_current, write_current, frames ;
+	long long	dataoffset, datalength, dataend, filelength, fileoffset ;
+	long long	blockwidth, bytewidth ;
+	long long	header_indx, header_end, header_len ;
+	long long	str_used, str_len ;
+	long long	wch_used, wch_count, rch_used, rch_count ;
+	long long	auto_header, norm_float, norm_double, add_clipping ;
+	long long	float_int_mult, scale_int_float ;
+	long long	is_pipe, virtual_io, seekable ;
+	long long	channels, samplerate, format, sections ;
+	long long	peak_present, peak_channels ;
+	double		peak_value [16] ;
+	long long	peak_pos [16] ;
+	long long	have_seek, have_write_header, ieee_replace, endian, data_endswap ;
+} SF_VERIF_STATE ;
+
+int sf_verif_snapshot (SNDFILE *sndfile, SF_VERIF_STATE *out) ;
+
+int
+sf_verif_snapshot (SNDFILE *sndfile, SF_VERIF_STATE *out)
+{	SF_PRIVATE *psf = (SF_PRIVATE *) sndfile ;
+	int k ;
+
+	if (psf == NULL || out == NULL || psf->Magick != SNDFILE_MAGICK)
+		return -1 ;
+
+	memset (out, 0, sizeof (*out)) ;
+	out->error = psf->error ;
+	out->mode = psf->file.mode ;
+	out->last_op = psf->last_op ;
+	out->have_written = psf->have_written ;
+	out->read_current = psf->read_current ;
+	out->write_current = psf->write_current ;
+	out->frames = psf->sf.frames ;
+	out->dataoffset = psf->dataoffset ;
+	out->datalength = psf->datalength ;
+	out->dataend = psf->dataend ;
+	out->filelength = psf->filelength ;
+	out->fileoffset = psf->fileoffset ;
+	out->blockwidth = psf->blockwidth ;
+	out->bytewidth = psf->bytewidth ;
+	out->header_indx = psf->header.indx ;
+	out->header_end = psf->header.end ;
+	out->header_len = psf->header.len ;
+	out->str_used = psf->strings.storage_used ;
+	out->str_len = psf->strings.storage_len ;
+	out->wch_used = psf->wchunks.used ;
+	out->wch_count = psf->wchunks.count ;
+	out->rch_used = psf->rchunks.used ;
+	out->rch_count = psf->rchunks.count ;
+	out->auto_header = psf->auto_header ;
+	out->norm_float = psf->norm_float ;
+	out->norm_double = psf->norm_double ;
+	out->add_clipping = psf->add_clipping ;
+	out->float_int_mult = psf->float_int_mult ;
+	out->scale_int_float = psf->scale_int_float ;
+	out->is_pipe = psf->is_pipe ;
+	out->virtual_io = psf->virtual_io ;
+	out->seekable = psf->sf.seekable ;
+	out->channels = psf->sf.channels ;
+	out->samplerate = psf->sf.samplerate ;
+	out->format = psf->sf.format ;
+	out->sections = psf->sf.sections ;
+	out->have_seek = psf->seek != NULL ;
+	out->have_write_header = psf->write_header != NULL ;
+	out->ieee_replace = psf->ieee_replace ;
+	out->endian = psf->endian ;
+	out->data_endswap = psf->data_endswap ;
+
+	if (psf->peak_info != NULL)
+	{	out->peak_present = 1 ;
+		out->peak_channels = psf->sf.channels ;
+		for (k = 0 ; k < psf->sf.channels && k < 16 ; k++)
+		{	out->peak_value [k] = psf->peak_info->peaks [k].value ;
+			out->peak_pos [k] = psf->peak_info->peaks [k].position ;
+			} ;
+		} ;
+
+	return 0 ;
+} /* sf_verif_snapshot */
+
+#endif /* LIBSNDFILE_VERIF */
